@@ -582,6 +582,16 @@ func plPlacementScenarios(thorough bool) []*plScenario {
 		out = append(out, &plScenario{Name: "place:lazy-partition-2-shards", SrcN: 2, TgtN: 2, Colls: []*plColl{c}, DelayPartitionOnTarget: true,
 			Drivers: []plDriver{{Kind: "start", Coll: 0}, {Kind: "addpart", Coll: 0, Part: "p1", PartState: pb.PartitionState_PartitionCreated}}, HeavyBound: 1})
 	}
+	// a partition that is dropped and created again under the same name while the task runs: the messages of the new
+	// incarnation carry the id the downstream gave IT (the create request for it has to be issued first)
+	{
+		c := mkColl(101, "c1", []string{"src-dml_0"}, []string{"tgt-dml_0"})
+		withPartition(c, true)
+		c.Shards[0].Script = []plPack{pkInsPart(1000), pkDropPart(1010), {Msgs: []plMsg{{Kind: "ins", Ms: 1030, Part: "p1", New: true}}, TickMs: 1030, TickLg: 5}}
+		out = append(out, &plScenario{Name: "place:partition-dropped-and-recreated", SrcN: 1, TgtN: 1, Colls: []*plColl{c},
+			Drivers: []plDriver{{Kind: "start", Coll: 0}, {Kind: "addpart", Coll: 0, Part: "p1", PartState: pb.PartitionState_PartitionCreated},
+				{Kind: "addpart", Coll: 0, Part: "p1", PartState: pb.PartitionState_PartitionCreated, NewPart: true, AfterDrop: true}}, HeavyBound: 1})
+	}
 	// downstream collection does not exist yet: created through the create-collection event
 	{
 		c := mkColl(101, "c1", []string{"src-dml_0"}, []string{"tgt-dml_4"})
@@ -694,7 +704,7 @@ func TestVerifC16Manager(t *testing.T) {
 	}
 	var scs []*plScenario
 	for _, sc := range plPlacementScenarios(true) {
-		if strings.Contains(sc.Name, "lazy-partition") || strings.Contains(sc.Name, "created-by-event") {
+		if strings.Contains(sc.Name, "lazy-partition") || strings.Contains(sc.Name, "created-by-event") || strings.Contains(sc.Name, "partition-dropped") {
 			continue
 		}
 		sc.WatchMapping = true
